@@ -11,6 +11,7 @@ fails = common.regen()
 for f in fails:
     print("translator failure:", f)
 PY
+python3 harness/gen/typegen.py
 (cd lean && lake build MiniconfVerif driver)
 [ -f harness/Cargo.lock ] || cp /repo/Cargo.lock harness/Cargo.lock
 (cd harness && cargo build --offline --quiet && cargo build --offline --quiet --release)
